@@ -289,11 +289,11 @@ func runChunk(r *engine.R, cs []*mini.ClCase, mode, site string) {
 			r.Note("rejected: " + cc.Shape() + ": " + firstLine(u.Diags))
 			r.Outcome("rejected by the checker")
 		case u.Panic != "":
-			sig := fmt.Sprintf("%s: vm go-panic %s%s", modeName, u.Panic, tail)
+			sig := fmt.Sprintf("%s: go-panic %s%s", modeName, shortPanic(u.Panic), tail)
 			if u.Panic == mini.HostCrash {
 				sig = fmt.Sprintf("%s: the process running the program died (fatal Go runtime error)%s", modeName, tail)
 			} else if hasFeature(cc, "tail-call") {
-				sig = fmt.Sprintf("%s: vm go-panic%s", modeName, tail)
+				sig = fmt.Sprintf("%s: go-panic%s", modeName, tail)
 			}
 			r.Violation(sig, fmt.Sprintf("term %s (site %s)\n%s\nexpected output:\n%s\nGo panic: %s\n%s", cc.Shape(), site, srcs[i], want, u.PanicMsg, trimStack(u.Stack)), srcs[i])
 		case u.Err != "":
@@ -323,6 +323,24 @@ func lines(s string) []string {
 		return nil
 	}
 	return strings.Split(s, "\n")
+}
+
+func shortPanic(sig string) string {
+	parts := strings.Split(sig, " @ ")
+	msg := parts[0]
+	msg = strings.Replace(msg, "runtime error: invalid memory address or nil pointer dereference", "nil pointer dereference", 1)
+	msg = strings.Replace(msg, "interface conversion: value.Reference is nil, not ", "nil Reference used as ", 1)
+	if len(msg) > 60 {
+		msg = msg[:60]
+	}
+	var fr []string
+	for _, f := range parts[1:] {
+		fr = append(fr, strings.TrimPrefix(f, "vm.(*Thread)."))
+	}
+	if len(fr) == 0 {
+		return msg
+	}
+	return "in " + strings.Join(fr, "<") + ": " + msg
 }
 
 func firstLine(s string) string {
